@@ -301,7 +301,7 @@ def _coherence(w, TypeHint, i, h, row, out):
             out["coh"].append((i, "singleton", "TypeHint(wrapper) is not the wrapper"))
         if th.hint is not hint and not (same or th.hint == hint):
             out["coh"].append((i, "hint_attr", f".hint is {th.hint!r}, wrapped {hint!r}"))
-        if hash(th) != hash(hint):
+        if hint is not None and hash(th) != hash(hint):
             out["drift"].append(f"hash(TypeHint({hint!r})) is not hash(hint)")
         kids = tuple(th)
         if len(th) != len(kids) or bool(th) != (len(kids) > 0):
@@ -443,7 +443,7 @@ def shape(h, deep=True):
     if k == "ann":
         return "Annotated"
     if k == "call":
-        return "Callable[...]" if h["s"] == "ellipsis" else "Callable[[],r]" if len(h["a"]) == 1 else "Callable"
+        return "Callable"
     if k == "seq" and h["s"] == "tuple":
         return "tuple[variadic]"
     if deep and h["a"] and all(_hasany(c) and c["k"] == "any" for c in h["a"]):
@@ -466,6 +466,8 @@ def pair_shapes(a, b):
                     if _pyeq(m, n):
                         return f"Literal[{m['cls']} member]", f"Literal[== {n['cls']} member]"
                 return f"Literal[{m['cls']} member]", "Literal[no equal member]"
+    if b["k"] == "union" and any(shape(m) == shape(a) for m in _flat(b)):
+        return shape(a), f"Union with {'an' if shape(a)[0] in 'AEIOU' else 'a'} {shape(a)} member"
     return shape(a), shape(b)
 
 
@@ -535,16 +537,21 @@ class Classifier:
         elif _hasany(H[a]) or _hasany(H[b]) or _hasany(H[c]):
             key["via"] = "a hint containing Any"
         if "via" in key:
-            if R[a][c] == 2:
-                key["conclusion"] = "raises BeartypeDoorIsSubhintException"
             return key, (a, b, c)
         a, b, c = self.trans_root(a, b, c)
-        for (x, y), which in (((a, b), "a <= b"), ((b, c), "b <= c")):
+        for (x, y) in ((a, b), (b, c)):
             if (x, y) in self.unsound:
                 k2, _ = self.sound_key(x, y)
-                key["cause"] = f"unsound premise {which}"
+                key["cause"] = "a premise is an unsound is_subhint answer"
                 key["premise"] = f"{k2['a']} <= {k2['b']}"
                 return key, (a, b, c)
+        if H[c]["k"] == "union":
+            for m in _flat(H[c]):
+                im = self._ix(m)
+                if im is not None and R[a][im] == 1 and R[im][c] == 1:
+                    key["cause"] = "A <= a member M of the union C holds, A <= C does not"
+                    key["member"] = shape(m)
+                    return key, (a, im, c)
         key.update({"a": shape(H[a]), "b": shape(H[b]), "c": shape(H[c])})
         if R[a][c] == 2:
             key["conclusion"] = "raises BeartypeDoorIsSubhintException"
@@ -806,8 +813,15 @@ def _judge(rep, tier, seed, meta, rows, results):
                 continue
             n_eq += 1
             if not HQ[a][b]:
-                sa, sb = sorted([shape(hints[a]), shape(hints[b])])
-                key = {"law": "equal wrappers have equal hashes", "a": sa, "b": sb}
+                if a == b:
+                    why = "one hint in two spellings (typing.X[...] and builtin / collections.abc X[...])"
+                elif "any" in (hints[a]["k"], hints[b]["k"]):
+                    why = "Any == every hint (mutual subhints through Any)"
+                elif (a, b) in unsound or (b, a) in unsound:
+                    why = "different hints that are mutual subhints through an unsound is_subhint answer"
+                else:
+                    why = "different hints that are mutual subhints"
+                key = {"law": "equal wrappers have equal hashes", "class": why}
                 e = hk.setdefault(json.dumps(key, sort_keys=True), [key, (a, b), 0])
                 e[2] += 1
             if not (R[a][b] == 1 and R[b][a] == 1) and not (real3(a, b) == 1 and real3(b, a) == 1):
@@ -832,8 +846,8 @@ def _judge(rep, tier, seed, meta, rows, results):
         key = {"law": "wrapper coherence", "check": kind, "wrapper": _wk(hints[i]) + "TypeHint"}
         if kind == "reflexive_same_object":
             continue        # reported under "reflexivity"
-        if kind == "args_children":
-            key["hint"] = shape(hints[i])
+        if kind == "args_children" and hints[i]["k"] == "call":
+            key["hint"] = "Callable[..., r]" if hints[i]["s"] == "ellipsis" else "Callable[[], r]"
         e = ck.setdefault(json.dumps(key, sort_keys=True), [key, i, msg, 0])
         e[3] += 1
     for key, i, msg, cnt in ck.values():
